@@ -180,3 +180,19 @@ def find_kani(run, unit, harness, label, failure):
     if g.get("found"):
         return g
     return {"found": False, "note": "Kani counterexample did not reproduce a disagreement with the Python oracle on the real function (values: %r); grid search: %s" % (vals[:2], g.get("note"))}
+
+
+def fallback(run):
+    """bounded search over every operator and operand class on the real functions (used when the unit is undecided).
+    Float ** is excluded: not carried by this check (f64::powf is outside both verifiers; see DESIGN.md)."""
+    for op in PYOPS:
+        if op == 'try_or':
+            continue
+        for a in ('Int', 'Nat', 'Float'):
+            for b in ('Int', 'Nat', 'Float'):
+                if op == 'try_pow' and 'Float' in (a, b):
+                    continue
+                g = find(run, {"key": "%s[%s,%s]" % (op, a, b)})
+                if g.get("found"):
+                    return g
+    return {"found": False, "note": "no disagreement with the Python oracle on the boundary grid of every operator/class"}
